@@ -284,6 +284,41 @@ func (e *engine) step(s Step) (bool, error) {
 			e.stats["finish-before-return"]++
 		}
 		e.finish(q, s.B&1 == 1)
+	case "p-finish-in-write":
+		// B's Finish reaches A while A's Return for the same question is inside the transport: the call is let go, its
+		// Return is held in the wire, the Finish is delivered, then the Return is let through
+		var cands []*bq
+		for _, q := range e.allB {
+			if q.held() && !q.opened && !q.returned && !q.finished && q.kind != "boot" && !e.c.Burst {
+				cands = append(cands, q)
+			}
+		}
+		if len(cands) == 0 {
+			return false, nil
+		}
+		q := cands[s.A%len(cands)]
+		id := q.id
+		entered, release := make(chan struct{}, 1), make(chan struct{})
+		e.w.SetGate(func(m rpcsim.Msg) {
+			if m.Which == "return" && m.ID == id {
+				select {
+				case entered <- struct{}{}:
+				default:
+				}
+				<-release
+			}
+		})
+		e.open(q.serial)
+		select {
+		case <-entered:
+			e.stats["finish-during-return-write"]++
+			e.finish(q, s.B&1 == 1)
+			time.Sleep(2 * time.Millisecond)
+		case <-time.After(100 * time.Millisecond):
+			// no Return now (the call is queued behind something): nothing to race with
+		}
+		e.w.SetGate(nil)
+		close(release)
 	case "p-release":
 		var ids []uint32
 		for _, id := range e.liveExports() {
